@@ -8,7 +8,7 @@ EXTENDS SampleCoding, TLC
 I2 == {"i1", "i2"}
 
 Out(k, st) == [kind |-> k, status |-> st]
-Failures == {Out("refused", 0), Out("reset", 0), Out("timeout", 0), Out("truncated", 200), Out("truncated", 503)}
+Failures == {Out("refused", 0), Out("reset", 0), Out("timeout", 0), Out("truncated", 200), Out("truncated", 503), Out("resetbody", 200)}
 
 HttpCases(lo, hi) == {[kind |-> "http", out |-> o] : o \in {Out("status", st) : st \in lo..hi} \cup Failures}
 
@@ -16,6 +16,22 @@ Segs == <<"s1", "s2", "s3", "s4">>
 Shapes == {SubSeq(Segs, 1, n) \o t : n \in 0..4, t \in {<<>>, <<"">>}}
 Queries == {"", "?x=1", "?r=/x/y&z=/"}
 AutoCfgs(depths) == {NoAuto} \cup {[enabled |-> TRUE, depth |-> d, notagonly |-> n] : d \in depths, n \in BOOLEAN}
+\* URIs without any path: query only (uri, json) and absolute-form without a path (uri, raw)
+NoPathCases(depths) ==
+    {c \in {[kind |-> "tag", fmt |-> fu[1], tag |-> t, at |-> a, elems |-> <<>>, nopath |-> TRUE, query |-> "", uri |-> fu[2]] :
+               fu \in {<<"uri", "?x=1">>, <<"json", "?x=1">>, <<"uri", "http://abs.test">>, <<"raw", "http://abs.test">>,
+                        <<"uri", "http://abs.test?q=/a/b">>},
+               t \in {"", "t1"}, a \in AutoCfgs(depths)} :
+        \* (a tagged entry with no-tag-only off would get the empty auto-tag appended, "t1|": a blemish the statement
+        \* does not speak about - left out)
+        c.tag = "" \/ ~c.at.enabled \/ c.at.notagonly}
+\* failure kinds and plain answers with the gun's side channels looking on
+SideOuts == {Out("status", 200), Out("status", 503), Out("truncated", 200), Out("truncated", 503), Out("resetbody", 200), Out("reset", 0)}
+HttpSideCases == {[kind |-> "http", out |-> o, side |-> [answlog |-> a, trace |-> t]] :
+                     o \in SideOuts, a \in {"off", "all"}, t \in BOOLEAN}
+\* scenario shots whose context is cancelled: during step 1's sleep, during step 1's exchange, between steps 1 and 2
+ScnCancelCases == {[kind |-> "scncancel", gun |-> g, name |-> "cscn", steps |-> <<"s1", "s2", "s3">>, when |-> a] :
+                      g \in {"http", "grpc"}, a \in {"sleep", "exchange", "between"}}
 TagCases(fmts, depths) ==
     {[kind |-> "tag", fmt |-> f, tag |-> t, at |-> a, elems |-> e, query |-> q, uri |-> PathOf(e) \o q] :
         f \in fmts, t \in {"", "t1"}, a \in AutoCfgs(depths), e \in Shapes, q \in Queries}
@@ -50,9 +66,9 @@ GrpcScnCases(maxLen) ==
              steps |-> [k \in 1..n |-> [tag |-> Segs[k], pre |-> f[k].pre, status |-> f[k].status, post |-> f[k].post, want |-> f[k].want]]] :
                f \in [1..n -> GrpcStepVariants]} : n \in 1..maxLen}
 
-SpaceQuick == HttpCases(200, 599) \cup TagCases({"uri", "json"}, 1..3) \cup GrpcCases \cup GrpcBad \cup GrpcFail \cup Invalid
+SpaceQuick == HttpCases(200, 599) \cup HttpSideCases \cup NoPathCases(1..3) \cup ScnCancelCases \cup TagCases({"uri", "json"}, 1..3) \cup GrpcCases \cup GrpcBad \cup GrpcFail \cup Invalid
               \cup HttpScnCases(2) \cup GrpcScnCases(2)
-SpaceBig   == HttpCases(200, 599) \cup TagCases({"uri", "json", "raw", "uripost"}, 1..5) \cup GrpcCases \cup GrpcBad \cup GrpcFail \cup Invalid
+SpaceBig   == HttpCases(200, 599) \cup HttpSideCases \cup NoPathCases(1..5) \cup ScnCancelCases \cup TagCases({"uri", "json", "raw", "uripost"}, 1..5) \cup GrpcCases \cup GrpcBad \cup GrpcFail \cup Invalid
               \cup HttpScnCases(3) \cup GrpcScnCases(3)
 \* scenario cases alone (3 steps: 5 831 + 3 615 cases) are the bulk of the thorough space
 
@@ -62,6 +78,8 @@ Small == {[kind |-> "http", out |-> Out("status", 200)], [kind |-> "http", out |
           [kind |-> "grpc", status |-> 13],
           [kind |-> "tag", fmt |-> "uri", tag |-> "", at |-> [enabled |-> TRUE, depth |-> 1, notagonly |-> TRUE],
            elems |-> <<"s1", "s2">>, query |-> "", uri |-> "/s1/s2"],
+          [kind |-> "tag", fmt |-> "uri", tag |-> "", at |-> [enabled |-> TRUE, depth |-> 1, notagonly |-> TRUE],
+           elems |-> <<>>, nopath |-> TRUE, query |-> "", uri |-> "?x=1"],
           [kind |-> "httpscn", name |-> "scn",
            steps |-> <<[name |-> "s1", pre |-> "none", out |-> Out("status", 404), post |-> "pass", sleep |-> FALSE],
                        [name |-> "s2", pre |-> "none", out |-> Out("reset", 0), post |-> "none", sleep |-> FALSE],
